@@ -150,6 +150,7 @@ pub struct World {
   pub sbj: Vec<Sbj>,                            // harness subjects (1-based in terms)
   pub conn: Vec<ConnObj>,
   pub tok_ops: Arc<()>,                         // captured by every closure handed to an operator (C17)
+  pub slot1: Option<Arc<Mutex<Option<Subscription<'static>>>>>,   // sink 1's own Subscription once subscribe() returned it
 }
 pub type W = Arc<Mutex<World>>;
 pub const MAX_LOG: usize = 150;
@@ -297,6 +298,7 @@ pub fn build(t: &Term, w: &W) -> O {
     "error" => observables::error(err(a)),
     "range" => observables::range(a, t.b),
     "repeat" => observables::repeat(a),
+    "from_iter_endless" => observables::from_iter(std::iter::repeat(a)),
     "defer" => {
       let inner = i0();
       observables::defer(move || {
@@ -441,6 +443,27 @@ pub fn build(t: &Term, w: &W) -> O {
             }
           }
           "probe2" => build(&Term::leaf("probe", 2), &w),
+          // the mapping function ends the running subscription of sink 1 before it returns its (hot) inner observable
+          "unsub_probe2" => {
+            let slot = w.lock().unwrap().slot1.clone();
+            if let Some(slot) = slot {
+              let h = slot.lock().unwrap().take();
+              if let Some(h) = h {
+                h.unsubscribe();
+                log(&w, "mark", 1, "unsubret", 0, 0);
+              }
+            }
+            build(&Term::leaf("probe", 2), &w)
+          }
+          // a window / group observed together with its own terminal (Complete = 2000, Error = 1000 + payload)
+          "obsmat" => {
+            let o = w.lock().unwrap().inner[(x - OBS_BASE) as usize].clone();
+            o.materialize().map(|m| match m {
+              Material::Next(x) => x,
+              Material::Error(e) => 1000 + payload(&e),
+              Material::Complete => 2000,
+            })
+          }
           // inner observable with an operator (and hence a closure of its own) in front of the hot source
           "probe2map" => build(&Term::un("map", 0, "inc", Term::leaf("probe", 2)), &w),
           // inner observable that emits 10x+1 and completes from a new logical thread
